@@ -866,6 +866,15 @@ def scope_cases():
         "def f(qubit a, int[8] x) { rz(x) a; for int i in [0:1] { {B} rx(x) a; } if (x == 7) { ry(x) a; } else { h a; } } f(q[0], 7);",
         "def f(qubit a, int[8] x) { if (true) { x = x + 1; {B} } rx(x) a; for int j in [0:0] { if (j == 0) { rz(x) a; } } } f(q[0], 7); f(q[1], 2);",
         "gate g(x) a { rx(x) a; } def f(qubit a, float[64] x) { if (true) { g(x) a; {B} } } f(q[0], 0.5);",
+        # a name declared in a block and read / written from a block nested deeper inside it: the update belongs to the
+        # declaring block, is seen there after the inner block ends, and never reaches the scopes outside (round 10)
+        "if (true) { int[8] x = 5; if (true) { {B} } rx(x) q[1]; } rx(x) q[0];",
+        "if (true) { int[8] x = 5; for int j in [0:1] { if (j == 1) { {B} } } rx(x) q[1]; } rx(x) q[0];",
+        "for int i in [0:1] { int[8] x = 7; if (i == 1) { {B} } rx(x) q[1]; } rx(x) q[0];",
+        "int[8] s = 1; switch (s) { case 1 { int[8] x = 9; if (true) { {B} } rx(x) q[1]; } } rx(x) q[0];",
+        "def f(qubit a) { if (true) { int[8] x = 4; for int j in [0:1] { {B} } rx(x) a; } } f(q[0]); rx(x) q[0];",
+        "for int i in [0:1] { int[8] acc = 1; if (true) { acc = acc + i; {B} } rx(acc) q[0]; } rx(acc) q[0];",
+        "for int i in [0:1] { int[8] acc = 1; if (true) { if (i == 0) { acc += 2; } {B} } rx(acc) q[0]; } int[8] acc = 3; rx(acc) q[1];",
     ]
     acts = {"read": "rx(x) q[1];", "write": "x = x + 2;", "declare": "int[8] x = 3;", "nothing": "h q[1];", "compound": "x *= 3;"}
     for dn, d in decls.items():
@@ -941,10 +950,17 @@ def external_cases(rnd):
         "h q[k];\nc1(th) q[k], q[k + 1];\nrx(th * 2) q[n];\nif (k == 1) { h q[k + 2]; c1(k) q[0], q[n]; }\n"
         "def f(qubit[2] p, int[8] m) { h p[m]; c1(m) p[0], p[1]; rx(m * 0.5) p[m]; }\nf(q[1:3], 1);\nlet al = q[{3, 0}];\nh al[k];\nc1(0.1) al[0], al[1];\n"
         "for int i in [0:2] { cx q[i], q[i + 1]; c1(i) q[i], q[3 - k - i + 1]; }\nswitch (k) { case 1 { h q[n]; } default { h q[0]; } }\n",
+        # definitions that take the name of a library gate with another number of qubits / parameters: a kept call is a
+        # call of the gate the program defines, split (if at all) by that gate's own qubit count (round 10)
+        "qubit[4] q;\ngate h a, b { cx a, b; rz(0.5) b; }\ngate rx(t) a, b, c { cx a, b; rz(t) c; }\nh q[0], q[1];\ninv @ h q[2], q[3];\nx q[2];\n"
+        "rx(0.5) q[0], q[1], q[2];\npow(2) @ rx(1) q[1], q[2], q[3];\nh q[0:2];\ncx q[0], q[1];\n",
+        # (the shadowed names are not basis gates that the lowering of another library gate of the program emits: the kept program
+        # would then name two different gates by one name, which is outside what the re-load oracle can re-attach definitions to)
+        "qubit[3] q;\ngate swap a { h a; }\ngate crx(t) a, b, c { rx(t) a; rz(t) b; cx b, c; }\nswap q[0];\ninv @ swap q[1];\ncrx(0.3) q[0], q[2], q[1];\ninv @ crx(1) q[0:3];\ncrz(0.5) q[0], q[1];\n",
     ]
     out = []
     for p in progs:
-        names = sorted(set(n for n in ("c1", "c2", "h", "cx", "u3", "rx", "crz") if (n + " " in p or n + "(" in p)))
+        names = sorted(set(n for n in ("c1", "c2", "h", "cx", "u3", "rx", "crz", "swap", "crx") if (n + " " in p or n + "(" in p)))
         for k in range(len(names) + 1):
             for E in itertools.combinations(names, k):
                 out.append((H3 + p, list(E)))
